@@ -7,35 +7,30 @@ Local Open Scope list_scope.
 
 Theorem C20_reached :
   forall (notes : list (string * option string * list dblock)) (ops : list op) (s : gstate),
-         plain_notes notes ->
          distinct_keys notes ->
-         plain_ops ops ->
          reached notes ops s ->
          wf_b (arena_of s) (gr_keys (gs_graph s)) = true /\ tombs_cleanb (arena_of s) = true.
 Proof. exact Reachable.reached_C20. Qed.
 Check C20_reached :
   forall (notes : list (string * option string * list dblock)) (ops : list op) (s : gstate),
-         plain_notes notes ->
          distinct_keys notes ->
-         plain_ops ops ->
          reached notes ops s ->
          wf_b (arena_of s) (gr_keys (gs_graph s)) = true /\ tombs_cleanb (arena_of s) = true.
 Print Assumptions C20_reached.
 
 Theorem C20_reached_Inv :
   forall (notes : list (string * option string * list dblock)) (ops : list op) (s : gstate),
-         plain_notes notes -> distinct_keys notes -> plain_ops ops -> reached notes ops s -> Inv s.
+         distinct_keys notes -> reached notes ops s -> Inv s.
 Proof. exact Reachable.reached_Inv. Qed.
 Check C20_reached_Inv :
   forall (notes : list (string * option string * list dblock)) (ops : list op) (s : gstate),
-         plain_notes notes -> distinct_keys notes -> plain_ops ops -> reached notes ops s -> Inv s.
+         distinct_keys notes -> reached notes ops s -> Inv s.
 Print Assumptions C20_reached_Inv.
 
 Theorem C20_update_key_step :
   forall (g : graph) (key : string) (meta : option string) (bs : list dblock),
          graph_inv g ->
          tombs_clean (gr_arena g) ->
-         plain bs ->
          exists g' : graph,
            update_key g key meta bs = Ok g' /\
            graph_inv g' /\
@@ -50,7 +45,6 @@ Check C20_update_key_step :
   forall (g : graph) (key : string) (meta : option string) (bs : list dblock),
          graph_inv g ->
          tombs_clean (gr_arena g) ->
-         plain bs ->
          exists g' : graph,
            update_key g key meta bs = Ok g' /\
            graph_inv g' /\
